@@ -15,6 +15,7 @@ import vlib
 SIZES = [0, 1, 2, 16383, 16384, 16385, 32768]
 READS = [0, 1, 2, 16384, 32768]
 BURSTS = [1, 16, 32, 33, 40]     # key updates in a row from one side (the library tolerates 32 NON-advancing records)
+PADS = [0, 1, 255, 256, 257, 1000, 99999]   # padding lengths of a padding peer (99999: pad the record to 2^14 - 1 bytes)
 ROUNDS = [8, 40]                 # upload rounds with a KeyUpdate of the receiver after every write
 
 
@@ -70,6 +71,19 @@ def run(ctx):
                     paths=True, workers=8, timeout=1200)
     half = [s for s in half if any(o["op"] in ("CW", "WD") for o in s["ops"])]
     scns = scns + half
+    # fourth exploration: a peer that PADS its TLS 1.3 records (RFC 8446 5.4; the in-tree writer never does). Needs the
+    # verif method Conn.VerifWritePaddedRecord (patches/hook-record-padding.diff); without it this class is skipped.
+    can_pad = bool(ctx.drv("caps", {}, prog=rl.PROG)[0]["pad"])
+    padded = []
+    if can_pad:
+        _, padded = rl.mc(ctx, "Record_MC_c25_pad", classes=["tls13"], sizes=[1, 16385], reads=[1, 32768],
+                          maxops=3, maxw=1, maxku=1, maxmut=1, maxclose=0,
+                          padsizes=[0, 238, 16000], padlens=PADS, maxpad=2 if ctx.quick else 3,
+                          paths=True, workers=8, timeout=1200)
+        padded = [s for s in padded if any(o["op"] == "WP" for o in s["ops"])]
+        scns = scns + padded
+    else:
+        ctx.note("padded TLS 1.3 records not exercised: the checkout has no Conn.VerifWritePaddedRecord (patches/hook-record-padding.diff)")
     deep = []
     if not ctx.quick:
         # random deep paths beyond the exhaustive bound
@@ -102,6 +116,11 @@ def run(ctx):
             picks += rng.sample(hk, min(6 if ctx.quick else 40, len(hk)))
             hd = [ops for ops in hk if blocked_then_requested(ops, data=True)]     # ... and data after the key update
             picks += rng.sample(hd, min(6 if ctx.quick else 40, len(hd)))
+            # a padding peer: every padding length on every TLS 1.3 cell
+            pp = [sc["ops"] for sc in padded]
+            for k in PADS:
+                cand = [ops for ops in pp if any(o["op"] == "WP" and (o["pad"] == k if k != 99999 else o["pad"] + o["n"] == 16383) for o in ops)]
+                picks += rng.sample(cand, min(3 if ctx.quick else 15, len(cand)))
             # every burst length and every upload length on every TLS 1.3 cell
             pool = by_class["tls13"]
             for k in BURSTS:
@@ -129,7 +148,8 @@ def run(ctx):
     if not out["rej"]:    # (with reproduced rejections the verdict stands on those)
         rl.need(out["stats"], ["Init.hs", "Write", "Write.multi", "Write.split", "Write.zero", "Read.data", "Read.partial", "Read.zero",
                                "Read.timeout", "Read.eof", "Read.error", "Read.alert", "Read.sticky", "Read.kuresp", "KeyUpdate", "Close",
-                               "Mutate", "Nonce", "CloseWrite", "WriteDeadline", "Read.kublocked", "Read.halfclosed", "Write.blocked"], "C25")
+                               "Mutate", "Nonce", "CloseWrite", "WriteDeadline", "Read.kublocked", "Read.halfclosed", "Write.blocked"]
+                + (["WritePadded", "WritePadded.long"] if can_pad else []), "C25")
     if not out["rej"]:
         # long runs of key updates without application data from that side must really have been read through
         longest = 0
@@ -160,7 +180,7 @@ def run(ctx):
                    "from the TLC-enumerated set; evaluations = events judged by TLC, distinct = distinct (cell, scenario) pairs"
                    % ("uTLS additions + 4 others" if ctx.quick else "all", per),
            "cells": len(cells), "cells_by_class_kind": {"%s/%s" % k: v for k, v in sorted(kinds.items())},
-           "mc_scenarios": len(scns), "mc_random_deep_scenarios": len(deep), "alterations_applied": muts,
+           "mc_scenarios": len(scns), "padded_records_exercised": can_pad, "mc_random_deep_scenarios": len(deep), "alterations_applied": muts,
            "matched_steps": out["stats"], "canaries_rejected": out["canaries"],
            "samples": [{"vers": j["vers"], "suite": j["suite"], "weak": j["weak"], "dyn": j["dyn"], "ops": j["ops"][:5]} for j in jobs[:3]],
            "exhaustive": False}
